@@ -38,7 +38,10 @@ RULE = ("a case is one history: (Link MIU announced by A, by B, aggregation on/o
         "operation list) executed on two real link controllers with alternating link turns; operations fill the send "
         "queues (connection/connection-less sends sized relative to the negotiated MIU, up to 500 service discovery "
         "requests answered in batches, concurrent resolve() calls with names of 1..60 bytes, CONNECT/DISC/I/RR "
-        "PDUs from the peer that make DM/FRMR/RR due, receive-busy toggles, close); distinct by the whole tuple; "
+        "PDUs from the peer that make DM/FRMR/RR due, receive-busy toggles, close; profile vack: 10..21 rounds in "
+        "which 2..6 connections with receive window 2..15 owe voluntary acknowledgements while a leading UI/I PDU of "
+        "Link MIU-60..Link MIU octets, stepped octet by octet, plus necessary acks/RNR/DM/SNL fill the aggregate); "
+        "distinct by the whole tuple; "
         "non-trivial if at least one non-SYMM frame went through the size and transparency oracles")
 ASSUMPTIONS = ["vf.ref.llcp_ref and the 10-line aggregate splitter in this module read wire frames correctly",
                "the Link MIU a controller announces is the MIUX TLV of the general bytes it hands to the MAC "
